@@ -90,7 +90,8 @@
         assert!(failures.is_empty());
     }
 
-    /// every window limit, combining marks: texts over {か U+3099 e U+0301 。 a} of up to 6 characters with window limits 1..=4 - the
+    /// every window limit, combining marks and astral characters: texts over {か U+3099 e U+0301 。 a} of up to 6 characters and over
+    /// {😀 𠮷 。 a か} of up to 5 characters with window limits 1..=4 - the
     /// sentences are non-empty, partition the text on character boundaries, and iteration terminates
     #[test]
     fn verif_oracle_small_windows_and_combining_marks() {
@@ -108,6 +109,28 @@
         for limit in 1usize..=4 {
             let sp = SentenceSplitter::with_limit(limit);
             for t in &texts {
+                cases += 1;
+                let parts: Vec<(Range<usize>, &str)> = sp.split(t).take(t.len() + 2).collect();
+                let mut pos = 0; let mut ok = true;
+                for (r, s) in &parts { if r.start != pos || r.end <= r.start || r.end > t.len() || !t.is_char_boundary(r.end) || *s != &t[r.clone()] { ok = false; break; } pos = r.end; }
+                if (!ok || pos != t.len()) && failures.len() < 20 {
+                    failures.push(format!("text {:?} (window limit {}): the sentences {:?} are not a partition into non-empty pieces (or iteration does not end)", t, limit, parts.iter().take(4).map(|p| (p.0.clone(), p.1)).collect::<Vec<_>>()));
+                }
+            }
+        }
+        // characters outside the Basic Multilingual Plane (two UTF-16 units, four bytes) at every position, every window limit 1..=4
+        let alphabet2 = ["😀", "𠮷", "。", "a", "か"];
+        let mut texts2: Vec<String> = Vec::new();
+        let mut frontier = vec![String::new()];
+        for _ in 0..5 {
+            let mut nf = Vec::new();
+            for t in &frontier { for c in alphabet2.iter() { let mut s = t.clone(); s.push_str(c); nf.push(s); } }
+            texts2.extend(nf.iter().cloned());
+            frontier = nf;
+        }
+        for limit in 1usize..=4 {
+            let sp = SentenceSplitter::with_limit(limit);
+            for t in &texts2 {
                 cases += 1;
                 let parts: Vec<(Range<usize>, &str)> = sp.split(t).take(t.len() + 2).collect();
                 let mut pos = 0; let mut ok = true;
